@@ -3,7 +3,7 @@ From Coq Require Import String ZArith List Bool.
 From XV Require Import Base.Label Base.LSet Base.ODict Base.Attr Base.Outcome Model.Hypergraph
   Model.HgCheck Model.Copy Model.Derived Proofs.HgViews Proofs.HgInv Proofs.HgStep Proofs.Build Proofs.DerivedProofs
   Proofs.NoNoneProofs Proofs.DualProofs Proofs.UnionProofs Proofs.ComplementProofs Proofs.MaxSimplicesProofs
-  Model.Stats Model.Graph Proofs.GraphProofs Proofs.LccProofs Proofs.HgErrors Proofs.RelabelProofs Proofs.CleanupProofs.
+  Model.Stats Model.Graph Proofs.GraphProofs Proofs.LccProofs Proofs.HgErrors Proofs.RelabelProofs Proofs.CleanupProofs Proofs.CutProofs.
 Import ListNotations.
 Open Scope Z_scope.
 
@@ -160,6 +160,16 @@ Proof.
   intros c Hc. apply (lcc_stage s c I Hc).
 Qed.
 Print Assumptions C19_cleanup_stages_only_delete.
+
+(* cut_to_order (Hypergraph): all nodes, and exactly the edges of order <= the requested order, with their members *)
+Theorem C19_cut_to_order : forall order s, Inv s -> NoNone s ->
+  out_of (cut_to_order false order s) = Ok ->
+  let t := st_of (cut_to_order false order s) in
+  Inv t /\ nkeys t = nkeys s /\
+  (forall e, (exists M, get e (h_edge t) = Some M) <-> In e (ekeys s) /\ Z.of_nat (length (mems s e)) - 1 <= order) /\
+  (forall e M, get e (h_edge t) = Some M -> seteq M (mems s e)).
+Proof. exact cut_to_order_spec. Qed.
+Print Assumptions C19_cut_to_order.
 
 (* the premises Inv and NoNone hold at every state reachable by an admissible, expressible history *)
 Theorem C19_premises_reachable : forall ops,
